@@ -448,6 +448,10 @@ func (ex *Exec) raceCheck(name string) {
 				sct := secs[si]
 				if sct.thread == e.thread && (sct.excl || e.kind == evLock) {
 					ex.reportConcurrency(h, "no-deadlock", fmt.Sprintf("thread %s acquires a mutex it already holds at %s", l.threads[e.thread].tag, e.where))
+				} else if sct.thread == e.thread && len(l.threads) > 1 {
+					// recursive read lock: sync.RWMutex blocks new readers once a writer waits, so a
+					// Lock by another thread between the two RLocks deadlocks both for ever
+					ex.reportConcurrencyKind(h, "no-deadlock", "deadlock", fmt.Sprintf("thread %s takes a read lock it already holds at %s: deadlocks with a concurrent Lock (sync.RWMutex is not reentrant)", l.threads[e.thread].tag, e.where))
 				}
 			}
 			secs = append(secs, section{start: i, end: -1, excl: e.kind == evLock, mu: e.mu, thread: e.thread})
